@@ -122,7 +122,7 @@ Lemma ack_parts_len a n : ack_len a = Ok n -> clen (ack_enc a) = n.
 Proof.
   unfold ack_len, ack_enc. intros H. rewrite clen_cons, len_be16.
   destruct (props_is_default (a_props a)).
-  - destruct (a_code a =? 0); inversion H; subst n; rewrite ?clen_one, ??clen_nil, ?clen_nil', ?len_one; lia.
+  - destruct (a_code a =? 0); inversion H; subst n; rewrite ?clen_one, ?clen_nil, ?clen_nil', ?len_one; lia.
   - open_len H ACK_PROPS (a_props a) pl Epl. inversion H; subst n.
     rewrite clen_cons, len_one, (props_clen _ _ _ (var_ok_ack _) Epl). lia.
 Qed.
@@ -177,7 +177,7 @@ Lemma disconnect_parts_len d n : disconnect_len d = Ok n -> clen (disconnect_enc
 Proof.
   unfold disconnect_len, disconnect_enc. intros H.
   destruct (props_is_default (d_props d)).
-  - destruct (d_code d =? 0); inversion H; subst n; rewrite ?clen_one, ??clen_nil, ?clen_nil', ?len_one; reflexivity.
+  - destruct (d_code d =? 0); inversion H; subst n; rewrite ?clen_one, ?clen_nil, ?clen_nil', ?len_one; reflexivity.
   - open_len H DISCONNECT_PROPS (d_props d) pl Epl. inversion H; subst n.
     rewrite clen_cons, len_one, (props_clen _ _ _ (var_ok_disconnect _) Epl). lia.
 Qed.
@@ -227,3 +227,407 @@ Qed.
 
 Theorem v5_parts_len p chunks n : I5.valid p = true -> body_enc p = Some (chunks, Ok n) -> clen chunks = n.
 Proof. intros Hv. apply v5_parts_len_gen. apply types_inv_var_ok5, valid_types_inv, Hv. Qed.
+
+(* ================================================================== *)
+(* the encoders emit bytes                                             *)
+(* ================================================================== *)
+Ltac bytes_split :=
+  repeat first [ rewrite concat_app
+               | match goal with |- context [concat (_ :: _)] => rewrite concat_cons end ];
+  rewrite ?concat_nil, ?app_nil_r, ?bytes_okb_app;
+  repeat match goal with |- _ && _ = true => apply andb_true_intro; split end.
+
+Lemma bytes_lp s : bytes_okb s = true -> bytes_okb (concat (lp_chunks s)) = true.
+Proof. intros H. unfold lp_chunks. norm_bytes. rewrite bytes_okb_app, bytes_okb_lenpfx, H. reflexivity. Qed.
+Lemma bytes_opt_lp o : opt_all bytes_okb o = true -> bytes_okb (concat (V3.opt_lp o)) = true.
+Proof.
+  destruct o as [s|]; cbn [opt_all V3.opt_lp]; intros H; [|reflexivity].
+  norm_bytes. rewrite bytes_okb_app, bytes_okb_lenpfx, H. reflexivity.
+Qed.
+Lemma opt_text_bytes o : opt_all text_ok o = true -> opt_all bytes_okb o = true.
+Proof. destruct o as [s|]; cbn [opt_all]; intros H; [|reflexivity]. apply text_ok_parts in H as [H _]. exact H. Qed.
+Lemma bytes_protocol pr : bytes_okb (concat (protocol_enc pr)) = true.
+Proof. destruct pr; reflexivity. Qed.
+Lemma props_bytes L ps pl : props_inv L ps = true -> props_len L ps = Ok pl ->
+  bytes_okb (concat (props_enc L ps)) = true.
+Proof. intros Hi H. destruct (props_len_inv _ _ _ H) as [Hb _]. exact (props_enc_bytes_inv _ _ Hi Hb). Qed.
+Lemma pid_bytes p : pid_ok p = true -> bytes_okb (be16 p) = true.
+Proof. unfold pid_ok, u16. intros H. split_and. apply bytes_okb_be16. apply N.ltb_lt. assumption. Qed.
+
+Lemma will_enc_bytes w n : I5.will_inv w = true -> will_len w = Ok n -> bytes_okb (concat (will_enc w)) = true.
+Proof.
+  unfold I5.will_inv, will_len, will_enc. intros Hi H. open_len H WILL_PROPS (w_props w) pl Epl. split_and.
+  bytes_split.
+  - eapply props_bytes; eassumption.
+  - apply bytes_lp. match goal with H : name_ok _ = true |- _ => apply name_ok_parts in H as [H _]; exact H end.
+  - apply bytes_lp. assumption.
+Qed.
+
+Lemma connect_flags_byte c : opt_all I5.will_inv (c_will c) = true -> connect_flags c < 256.
+Proof.
+  unfold connect_flags. intros H.
+  destruct (c_clean c), (c_username c), (c_password c), (c_will c) as [w|]; cbn [opt_all] in H; try lia;
+    unfold I5.will_inv in H; split_and;
+    match goal with H : (w_qos w <? 3) = true |- _ => apply N.ltb_lt in H end;
+    destruct (w_retain w); lia.
+Qed.
+
+Lemma connect_enc_bytes c n : I5.types_inv (Connect c) = true -> connect_len c = Ok n ->
+  bytes_okb (concat (connect_enc c)) = true.
+Proof.
+  cbn [I5.types_inv]. unfold connect_len, connect_enc. intros Hi H.
+  open_len H CONNECT_PROPS (c_props c) pl Epl.
+  destruct (match c_will c with Some w => will_len w | None => Ok 0 end) as [wl|e|s] eqn:Ewl;
+    cbn [obind] in H; try discriminate.
+  split_and. bytes_split.
+  - apply bytes_protocol.
+  - apply bytes_okb_one. apply connect_flags_byte. assumption.
+  - apply bytes_okb_be16.
+    match goal with H : u16 _ = true |- _ => unfold u16 in H; apply N.ltb_lt in H; exact H end.
+  - eapply props_bytes; eassumption.
+  - apply bytes_lp. match goal with H : text_ok _ = true |- _ => apply text_ok_parts in H as [H _]; exact H end.
+  - destruct (c_will c) as [w|]; [|reflexivity]. eapply will_enc_bytes; [|exact Ewl]. assumption.
+  - apply bytes_opt_lp, opt_text_bytes. assumption.
+  - apply bytes_opt_lp. assumption.
+Qed.
+
+Lemma mem_n_bound c L : forallb (fun x => x <? 256) L = true -> mem_n c L = true -> c < 256.
+Proof.
+  unfold mem_n. intros HL H. apply existsb_exists in H as [x [Hin E]]. apply N.eqb_eq in E. subst x.
+  rewrite forallb_forall in HL. apply N.ltb_lt. exact (HL c Hin).
+Qed.
+Lemma codes_byte table c : mem_n c (codes_of table) = true -> c < 256.
+Proof. apply mem_n_bound. destruct table; reflexivity. Qed.
+
+Lemma connack_enc_bytes c n : I5.types_inv (Connack c) = true -> connack_len c = Ok n ->
+  bytes_okb (concat (connack_enc c)) = true.
+Proof.
+  cbn [I5.types_inv]. unfold connack_len, connack_enc. intros Hi H.
+  open_len H CONNACK_PROPS (ca_props c) pl Epl. split_and. bytes_split.
+  - apply bytes_okb_one. destruct (ca_sp c); reflexivity.
+  - apply bytes_okb_one. apply (codes_byte PConnack). assumption.
+  - eapply props_bytes; eassumption.
+Qed.
+
+Lemma qospid_bytes q : qospid_ok q = true -> bytes_okb (concat (V3.qospid_enc q)) = true.
+Proof. destruct q; cbn [qospid_ok V3.qospid_enc]; intros H; [reflexivity| |]; norm_bytes; apply pid_bytes; exact H. Qed.
+
+Lemma publish_enc_bytes p n : I5.types_inv (Publish p) = true -> publish_len p = Ok n ->
+  bytes_okb (concat (publish_enc p)) = true.
+Proof.
+  cbn [I5.types_inv]. unfold publish_len, publish_enc. intros Hi H.
+  open_len H PUBLISH_PROPS (p_props p) pl Epl. split_and. bytes_split.
+  - apply bytes_lp. match goal with H : name_ok _ = true |- _ => apply name_ok_parts in H as [H _]; exact H end.
+  - apply qospid_bytes. assumption.
+  - eapply props_bytes; eassumption.
+  - assumption.
+Qed.
+
+Lemma ack_enc_bytes table a n : I5.ack_inv table a = true -> ack_len a = Ok n ->
+  bytes_okb (concat (ack_enc a)) = true.
+Proof.
+  unfold I5.ack_inv, ack_len, ack_enc. intros Hi H. split_and.
+  assert (Hc : a_code a < 256) by (eapply codes_byte; eassumption).
+  rewrite concat_cons, bytes_okb_app. apply andb_true_intro. split; [apply pid_bytes; assumption|].
+  destruct (props_is_default (a_props a)).
+  - destruct (a_code a =? 0); [reflexivity|]. norm_bytes. apply bytes_okb_one. exact Hc.
+  - open_len H ACK_PROPS (a_props a) pl Epl. bytes_split; [apply bytes_okb_one; exact Hc|].
+    eapply props_bytes; eassumption.
+Qed.
+
+Lemma subopts_byte o : I5.subopts_inv o = true -> subopts_to_u8 o < 256.
+Proof.
+  unfold I5.subopts_inv, subopts_to_u8. intros H. split_and.
+  repeat match goal with H : (_ <? _) = true |- _ => apply N.ltb_lt in H end.
+  destruct (o_nl o), (o_rap o); lia.
+Qed.
+Lemma filter_ok_bytes f : filter_ok f = true -> bytes_okb (ftext f) = true.
+Proof. unfold filter_ok. intros H. split_and. match goal with H : text_ok _ = true |- _ => apply text_ok_parts in H as [H _]; exact H end. Qed.
+
+Lemma sub_enc5_bytes ts : forallb (fun '(f, o) => filter_ok f && I5.subopts_inv o) ts = true ->
+  bytes_okb (concat (sub_enc5 ts)) = true.
+Proof.
+  induction ts as [|[tf o] ts IH]; intros H; [reflexivity|].
+  cbn [forallb] in H. split_and. unfold sub_enc5 in *. cbn [flat_map]. bytes_split.
+  - apply bytes_okb_lenpfx.
+  - apply filter_ok_bytes. assumption.
+  - apply bytes_okb_one, subopts_byte. assumption.
+  - apply IH. assumption.
+Qed.
+
+Lemma subscribe_enc_bytes s n : I5.types_inv (Subscribe s) = true -> subscribe_len s = Ok n ->
+  bytes_okb (concat (subscribe_enc s)) = true.
+Proof.
+  cbn [I5.types_inv]. unfold subscribe_len, subscribe_enc. intros Hi H.
+  open_len H SUBSCRIBE_PROPS (s_props s) pl Epl. split_and. fold (sub_enc5 (s_topics s)). bytes_split.
+  - apply pid_bytes. assumption.
+  - eapply props_bytes; eassumption.
+  - apply sub_enc5_bytes. assumption.
+Qed.
+
+Lemma codes_bytes table l : forallb (fun c => mem_n c (codes_of table)) l = true ->
+  bytes_okb (concat (map (fun c => [c]) l)) = true.
+Proof.
+  intros H. rewrite concat_singletons. unfold bytes_okb. apply forallb_forall. intros c Hc.
+  rewrite forallb_forall in H. apply N.ltb_lt. apply (codes_byte table). exact (H c Hc).
+Qed.
+
+Lemma suback_enc_bytes table s n : I5.suback_inv table s = true -> suback_len s = Ok n ->
+  bytes_okb (concat (suback_enc s)) = true.
+Proof.
+  unfold I5.suback_inv, suback_len, suback_enc. intros Hi H.
+  open_len H ACK_PROPS (sa_props s) pl Epl. split_and. bytes_split.
+  - apply pid_bytes. assumption.
+  - eapply props_bytes; eassumption.
+  - eapply codes_bytes. eassumption.
+Qed.
+
+Lemma unsub_enc5_bytes ts : forallb filter_ok ts = true -> bytes_okb (concat (unsub_enc5 ts)) = true.
+Proof.
+  induction ts as [|tf ts IH]; intros H; [reflexivity|].
+  cbn [forallb] in H. split_and. unfold unsub_enc5 in *. cbn [flat_map]. bytes_split.
+  - apply bytes_okb_lenpfx.
+  - apply filter_ok_bytes. assumption.
+  - apply IH. assumption.
+Qed.
+
+Lemma unsubscribe_enc_bytes u n : I5.types_inv (Unsubscribe u) = true -> unsubscribe_len u = Ok n ->
+  bytes_okb (concat (unsubscribe_enc u)) = true.
+Proof.
+  cbn [I5.types_inv]. unfold unsubscribe_len, unsubscribe_enc. intros Hi H.
+  open_len H UNSUBSCRIBE_PROPS (u_props u) pl Epl. split_and. fold (unsub_enc5 (u_topics u)). bytes_split.
+  - apply pid_bytes. assumption.
+  - eapply props_bytes; eassumption.
+  - apply unsub_enc5_bytes. assumption.
+Qed.
+
+Lemma disconnect_enc_bytes d n : I5.types_inv (Disconnect d) = true -> disconnect_len d = Ok n ->
+  bytes_okb (concat (disconnect_enc d)) = true.
+Proof.
+  cbn [I5.types_inv]. unfold disconnect_len, disconnect_enc. intros Hi H. split_and.
+  assert (Hc : d_code d < 256) by (apply (codes_byte PDisconnect); assumption).
+  destruct (props_is_default (d_props d)).
+  - destruct (d_code d =? 0); [reflexivity|]. norm_bytes. apply bytes_okb_one. exact Hc.
+  - open_len H DISCONNECT_PROPS (d_props d) pl Epl. bytes_split; [apply bytes_okb_one; exact Hc|].
+    eapply props_bytes; eassumption.
+Qed.
+
+Lemma auth_enc_bytes d n : I5.types_inv (Auth d) = true -> auth_len d = Ok n ->
+  bytes_okb (concat (auth_enc d)) = true.
+Proof.
+  cbn [I5.types_inv]. unfold auth_len, auth_enc. intros Hi H. split_and.
+  assert (Hc : d_code d < 256) by (apply (codes_byte PAuth); assumption).
+  destruct ((d_code d =? 0) && props_is_default (d_props d)); [reflexivity|].
+  open_len H AUTH_PROPS (d_props d) pl Epl. bytes_split; [apply bytes_okb_one; exact Hc|].
+  eapply props_bytes; eassumption.
+Qed.
+
+Theorem v5_chunks_bytes p chunks n : I5.types_inv p = true -> body_enc p = Some (chunks, Ok n) ->
+  bytes_okb (concat chunks) = true.
+Proof.
+  destruct p; cbn [body_enc]; intros Hv H; try discriminate; inversion H as [[Hc Hn]]; clear H.
+  - exact (connect_enc_bytes _ _ Hv Hn).
+  - exact (connack_enc_bytes _ _ Hv Hn).
+  - exact (publish_enc_bytes _ _ Hv Hn).
+  - exact (ack_enc_bytes PPuback _ _ Hv Hn).
+  - exact (ack_enc_bytes PPubrec _ _ Hv Hn).
+  - exact (ack_enc_bytes PPubrel _ _ Hv Hn).
+  - exact (ack_enc_bytes PPubcomp _ _ Hv Hn).
+  - exact (subscribe_enc_bytes _ _ Hv Hn).
+  - exact (suback_enc_bytes PSuback _ _ Hv Hn).
+  - exact (unsubscribe_enc_bytes _ _ Hv Hn).
+  - exact (suback_enc_bytes PUnsuback _ _ Hv Hn).
+  - exact (disconnect_enc_bytes _ _ Hv Hn).
+  - exact (auth_enc_bytes _ _ Hv Hn).
+Qed.
+
+Lemma control_byte_byte p : control_byte p < 256.
+Proof.
+  destruct p; try reflexivity. cbn [control_byte]. unfold V3.publish_control_byte.
+  destruct (p_dup p), (p_retain p), (p_qospid p); reflexivity.
+Qed.
+
+(* ================================================================== *)
+(* property sections below 2^28 <-> the body length is defined         *)
+(* ================================================================== *)
+Definition small (L : list prop_id) (ps : props) : Prop := props_body_len L ps < 268435456.
+
+Definition sections_small (p : packet) : Prop :=
+  match p with
+  | Connect c => small CONNECT_PROPS (c_props c)
+                 /\ match c_will c with Some w => small WILL_PROPS (w_props w) | None => True end
+  | Connack c => small CONNACK_PROPS (ca_props c)
+  | Publish x => small PUBLISH_PROPS (p_props x)
+  | Puback a | Pubrec a | Pubrel a | Pubcomp a => small ACK_PROPS (a_props a)
+  | Subscribe s => small SUBSCRIBE_PROPS (s_props s)
+  | Suback s | Unsuback s => small ACK_PROPS (sa_props s)
+  | Unsubscribe u => small UNSUBSCRIBE_PROPS (u_props u)
+  | Disconnect d => small DISCONNECT_PROPS (d_props d)
+  | Auth d => small AUTH_PROPS (d_props d)
+  | Pingreq | Pingresp => True
+  end.
+
+Lemma small_len L ps : small L ps -> exists pl, props_len L ps = Ok pl.
+Proof. intros H. eexists. apply props_len_ok. exact H. Qed.
+Lemma len_small L ps pl : props_len L ps = Ok pl -> small L ps.
+Proof. intros H. exact (proj1 (props_len_inv _ _ _ H)). Qed.
+
+Lemma default_small L ps : props_is_default ps = true -> props_body_len L ps = 0.
+Proof.
+  intros H. apply props_is_default_spec in H. subst ps. unfold props_body_len. cbn [pr_user props_empty length fold_right].
+  induction L as [|i L IH]; [reflexivity|]. cbn [fold_left]. rewrite pget_empty. exact IH.
+Qed.
+
+(* validity is not needed for this direction either; the hypothesis is kept for uniformity *)
+Theorem v5_body_len_ok p : I5.valid p = true -> sections_small p -> exists n, body_len5 p = Ok n.
+Proof.
+  intros _. unfold body_len5.
+  destruct p; cbn [body_enc sections_small]; intros Hs; try (eexists; reflexivity).
+  - destruct Hs as [H1 H2]. unfold connect_len. destruct (small_len _ _ H1) as [pl ->]. cbn [obind].
+    destruct (c_will c) as [w|].
+    + unfold will_len. destruct (small_len _ _ H2) as [wl ->]. cbn [obind]. eexists; reflexivity.
+    + cbn [obind]. eexists; reflexivity.
+  - unfold connack_len. destruct (small_len _ _ Hs) as [pl ->]. eexists; reflexivity.
+  - unfold publish_len. destruct (small_len _ _ Hs) as [pl ->]. eexists; reflexivity.
+  - unfold ack_len. destruct (small_len _ _ Hs) as [pl ->].
+    destruct (props_is_default _); [destruct (_ =? 0)|]; eexists; reflexivity.
+  - unfold ack_len. destruct (small_len _ _ Hs) as [pl ->].
+    destruct (props_is_default _); [destruct (_ =? 0)|]; eexists; reflexivity.
+  - unfold ack_len. destruct (small_len _ _ Hs) as [pl ->].
+    destruct (props_is_default _); [destruct (_ =? 0)|]; eexists; reflexivity.
+  - unfold ack_len. destruct (small_len _ _ Hs) as [pl ->].
+    destruct (props_is_default _); [destruct (_ =? 0)|]; eexists; reflexivity.
+  - unfold subscribe_len. destruct (small_len _ _ Hs) as [pl ->]. eexists; reflexivity.
+  - unfold suback_len. destruct (small_len _ _ Hs) as [pl ->]. eexists; reflexivity.
+  - unfold unsubscribe_len. destruct (small_len _ _ Hs) as [pl ->]. eexists; reflexivity.
+  - unfold suback_len. destruct (small_len _ _ Hs) as [pl ->]. eexists; reflexivity.
+  - unfold disconnect_len. destruct (small_len _ _ Hs) as [pl ->].
+    destruct (props_is_default _); [destruct (_ =? 0)|]; eexists; reflexivity.
+  - unfold auth_len. destruct (small_len _ _ Hs) as [pl ->].
+    destruct (_ && _); eexists; reflexivity.
+Qed.
+
+(* and conversely: a defined body length means every section is below 2^28 (no panic of KF1) *)
+Theorem v5_body_len_sections p n : body_len5 p = Ok n -> sections_small p.
+Proof.
+  unfold body_len5. destruct p; cbn [body_enc sections_small]; intros H; try exact I.
+  - unfold connect_len in H. open_len H CONNECT_PROPS (c_props c) pl Epl.
+    split; [exact (len_small _ _ _ Epl)|].
+    destruct (c_will c) as [w|]; [|exact I]. unfold will_len in H.
+    open_len H WILL_PROPS (w_props w) wl Ewl. exact (len_small _ _ _ Ewl).
+  - unfold connack_len in H. open_len H CONNACK_PROPS (ca_props c) pl Epl. exact (len_small _ _ _ Epl).
+  - unfold publish_len in H. open_len H PUBLISH_PROPS (p_props p) pl Epl. exact (len_small _ _ _ Epl).
+  - unfold ack_len in H. destruct (props_is_default (a_props a)) eqn:Ed.
+    + unfold small. rewrite (default_small _ _ Ed). reflexivity.
+    + open_len H ACK_PROPS (a_props a) pl Epl. exact (len_small _ _ _ Epl).
+  - unfold ack_len in H. destruct (props_is_default (a_props a)) eqn:Ed.
+    + unfold small. rewrite (default_small _ _ Ed). reflexivity.
+    + open_len H ACK_PROPS (a_props a) pl Epl. exact (len_small _ _ _ Epl).
+  - unfold ack_len in H. destruct (props_is_default (a_props a)) eqn:Ed.
+    + unfold small. rewrite (default_small _ _ Ed). reflexivity.
+    + open_len H ACK_PROPS (a_props a) pl Epl. exact (len_small _ _ _ Epl).
+  - unfold ack_len in H. destruct (props_is_default (a_props a)) eqn:Ed.
+    + unfold small. rewrite (default_small _ _ Ed). reflexivity.
+    + open_len H ACK_PROPS (a_props a) pl Epl. exact (len_small _ _ _ Epl).
+  - unfold subscribe_len in H. open_len H SUBSCRIBE_PROPS (s_props s) pl Epl. exact (len_small _ _ _ Epl).
+  - unfold suback_len in H. open_len H ACK_PROPS (sa_props s) pl Epl. exact (len_small _ _ _ Epl).
+  - unfold unsubscribe_len in H. open_len H UNSUBSCRIBE_PROPS (u_props u) pl Epl. exact (len_small _ _ _ Epl).
+  - unfold suback_len in H. open_len H ACK_PROPS (sa_props s) pl Epl. exact (len_small _ _ _ Epl).
+  - unfold disconnect_len in H. destruct (props_is_default (d_props d)) eqn:Ed.
+    + unfold small. rewrite (default_small _ _ Ed). reflexivity.
+    + open_len H DISCONNECT_PROPS (d_props d) pl Epl. exact (len_small _ _ _ Epl).
+  - unfold auth_len in H. destruct ((d_code d =? 0) && props_is_default (d_props d)) eqn:Ed.
+    + apply andb_true_iff in Ed as [_ Ed]. unfold small. rewrite (default_small _ _ Ed). reflexivity.
+    + open_len H AUTH_PROPS (d_props d) pl Epl. exact (len_small _ _ _ Epl).
+Qed.
+
+(* ================================================================== *)
+(* whole-packet statements that do not involve the decoder             *)
+(* ================================================================== *)
+
+(* what Packet::encode returned, read backwards; needs no validity *)
+Lemma encode_inv prof p vb chunks blen : body_enc p = Some (chunks, blen) -> encode prof p = Ok vb ->
+  exists n, blen = Ok n /\ n < 268435456 /\ as_ref vb = control_byte p :: write_var_int n ++ concat chunks.
+Proof.
+  intros Eb H. rewrite (encode_unfold _ _ _ _ Eb) in H.
+  destruct blen as [n|e|s]; cbn [obind] in H; try discriminate.
+  destruct (V3.encode_packet prof (control_byte p) chunks n) as [b|e|s] eqn:Ep; cbn [obind] in H; try discriminate.
+  inversion H; subst vb. destruct (encode_packet_inv _ _ _ _ _ Ep) as [Hn ->].
+  exists n. repeat split; [exact Hn].
+Qed.
+
+Theorem v5_encode_ok prof p n : I5.valid p = true -> body_len5 p = Ok n -> n < 268435456 ->
+  exists vb, encode prof p = Ok vb.
+Proof.
+  intros Hv. unfold body_len5. destruct (body_enc p) as [[chunks blen]|] eqn:Eb.
+  - intros -> Hn. rewrite (encode_unfold _ _ _ _ Eb). cbn [obind].
+    rewrite (encode_packet_ok _ _ _ _ (v5_parts_len _ _ _ Hv Eb) Hn). cbn [obind]. eexists; reflexivity.
+  - intros _ _. destruct (body_enc_none _ Eb) as [-> | ->]; eexists; reflexivity.
+Qed.
+
+Theorem v5_encode_shape prof p vb n : I5.valid p = true -> encode prof p = Ok vb -> body_len5 p = Ok n ->
+  exists chunks, (body_enc p = Some (chunks, Ok n) \/ (body_enc p = None /\ chunks = []))
+                 /\ as_ref vb = control_byte p :: write_var_int n ++ concat chunks
+                 /\ clen chunks = n.
+Proof.
+  intros Hv He. unfold body_len5. destruct (body_enc p) as [[chunks blen]|] eqn:Eb.
+  - intros ->. destruct (encode_inv _ _ _ _ _ Eb He) as [m [Em [Hm Hr]]]. inversion Em; subst m.
+    exists chunks. split; [left; reflexivity|]. split; [exact Hr|]. exact (v5_parts_len _ _ _ Hv Eb).
+  - intros Hn. inversion Hn; subst n. exists []. split; [right; split; reflexivity|].
+    destruct (body_enc_none _ Eb) as [-> | ->]; cbn [encode] in He; inversion He; subst vb; split; reflexivity.
+Qed.
+
+Theorem v5_encode_len prof p vb : I5.valid p = true -> encode prof p = Ok vb ->
+  encode_len p = Ok (len (as_ref vb)).
+Proof.
+  intros Hv He. destruct (body_enc p) as [[chunks blen]|] eqn:Eb.
+  - destruct (encode_inv _ _ _ _ _ Eb He) as [n [-> [Hn Hr]]].
+    rewrite (encode_len_unfold _ _ _ Eb). cbn [obind]. rewrite (total_len_ok _ Hn), Hr.
+    rewrite len_cons, len_app. destruct (write_len _ Hn) as [-> _]. fold (clen chunks).
+    rewrite (v5_parts_len _ _ _ Hv Eb). f_equal. lia.
+  - destruct (body_enc_none _ Eb) as [-> | ->]; cbn [encode] in He; inversion He; reflexivity.
+Qed.
+
+Theorem v5_profile_indep p : I5.valid p = true -> encode Debug p = encode Release p.
+Proof.
+  intros Hv. destruct (body_enc p) as [[chunks blen]|] eqn:Eb.
+  - rewrite !(encode_unfold _ _ _ _ Eb). destruct blen as [n|e|s]; cbn [obind]; try reflexivity.
+    destruct (N.lt_ge_cases n 268435456) as [Hn|Hn].
+    + rewrite !(encode_packet_ok _ _ _ _ (v5_parts_len _ _ _ Hv Eb) Hn). reflexivity.
+    + unfold V3.encode_packet. destruct (too_large _ Hn) as [_ [-> _]]. reflexivity.
+  - destruct (body_enc_none _ Eb) as [-> | ->]; reflexivity.
+Qed.
+
+(* needs no validity *)
+Theorem v5_too_large_gen prof p n : body_len5 p = Ok n -> 268435456 <= n ->
+  encode prof p = Err InvalidVarByteInt /\ encode_len p = Err InvalidVarByteInt.
+Proof.
+  unfold body_len5. destruct (body_enc p) as [[chunks blen]|] eqn:Eb.
+  - intros -> Hn. rewrite (encode_unfold _ _ _ _ Eb), (encode_len_unfold _ _ _ Eb). cbn [obind].
+    unfold V3.encode_packet. destruct (too_large _ Hn) as [_ [-> _]]. split; reflexivity.
+  - intros H Hn. inversion H; subst n. lia.
+Qed.
+
+Theorem v5_too_large prof p n : I5.valid p = true -> body_len5 p = Ok n -> 268435456 <= n ->
+  encode prof p = Err InvalidVarByteInt /\ encode_len p = Err InvalidVarByteInt.
+Proof. intros _. apply v5_too_large_gen. Qed.
+
+Theorem v5_encode_bytes prof p vb : I5.valid p = true -> encode prof p = Ok vb -> bytes_okb (as_ref vb) = true.
+Proof.
+  intros Hv He. destruct (body_enc p) as [[chunks blen]|] eqn:Eb.
+  - destruct (encode_inv _ _ _ _ _ Eb He) as [n [-> [Hn ->]]].
+    rewrite bytes_okb_cons, bytes_okb_app, (bytes_okb_var_int _ Hn).
+    rewrite (v5_chunks_bytes _ _ _ (valid_types_inv _ Hv) Eb).
+    pose proof (control_byte_byte p) as Hc. destruct (N.ltb_spec (control_byte p) 256); [reflexivity|lia].
+  - destruct (body_enc_none _ Eb) as [-> | ->]; cbn [encode] in He; inversion He; reflexivity.
+Qed.
+
+Print Assumptions v5_parts_len.
+Print Assumptions v5_body_len_ok.
+Print Assumptions v5_body_len_sections.
+Print Assumptions v5_encode_ok.
+Print Assumptions v5_encode_shape.
+Print Assumptions v5_encode_len.
+Print Assumptions v5_profile_indep.
+Print Assumptions v5_too_large.
+Print Assumptions v5_encode_bytes.
